@@ -134,7 +134,9 @@ namespace occa {
             success = up->addToScope(enumType, force);
           }
         }
-        if (!success) {
+        if (!success && !(typedefingStruct || typedefingEnum)) {
+          // Only delete the typedef allocated above: a struct or enum typedef is the type
+          //   the variable and the caller's vartype_t still point to
           delete type;
         }
       } else if (var.vartype.definesStruct() || var.vartype.definesEnum()) {
